@@ -130,6 +130,26 @@ pub fn exec(f: &[&str]) -> Option<String> {
                     }
                 }
             }
+            // the same document as JSON text (the functions sniff the representation themselves)
+            if let Ok(v) = jsonb::from_slice(&doc) {
+                if !crate::gen_text::has_nan(&v) {
+                    let text = jsonb::to_string(&doc);
+                    if jsonb::parse_value(text.as_bytes()).map(|pv| pv.to_vec() == doc).unwrap_or(false) {
+                        let tb = text.as_bytes();
+                        let convt = |which: u8| -> Result<(Vec<u8>, Vec<u64>), Error> {
+                            let jp = parse_json_path(&pathb).map_err(|_| Error::InvalidJsonPath)?;
+                            let (mut data, mut offs) = (vec![], vec![]);
+                            match which { 0 => jsonb::get_by_path(tb, jp, &mut data, &mut offs)?, 1 => jsonb::get_by_path_first(tb, jp, &mut data, &mut offs)?, _ => jsonb::get_by_path_array(tb, jp, &mut data, &mut offs)? };
+                            Ok((data, offs))
+                        };
+                        for w in 0..3u8 { if !same(&convt(w), &conv(w)) { return Some(format!("text form: get_by_path variant {} differs from the JSONB form", w)); } }
+                        let (pe_t, pe_b) = (jsonb::path_exists(tb, jp.clone()), jsonb::path_exists(&doc, jp.clone()));
+                        if pe_t.is_ok() != pe_b.is_ok() || pe_t.ok() != pe_b.ok() { return Some("text form: path_exists differs from the JSONB form".into()); }
+                        let (pm_t, pm_b) = (jsonb::path_match(tb, jp.clone()), jsonb::path_match(&doc, jp.clone()));
+                        if pm_t.is_ok() != pm_b.is_ok() || pm_t.ok() != pm_b.ok() { return Some("text form: path_match differs from the JSONB form".into()); }
+                    }
+                }
+            }
             if !same(&conv(0), &mixed) { return Some("get_by_path differs from Mode::Mixed".into()); }
             if !same(&conv(1), &first) { return Some("get_by_path_first differs from Mode::First".into()); }
             if !same(&conv(2), &array) { return Some("get_by_path_array differs from Mode::Array".into()); }
